@@ -72,7 +72,11 @@ func VerifC09Emoves() {
 	if pi := verifParam("INNER", -1); pi >= 0 {
 		verifAssume(i == pi)
 	}
-	body := verifPat(verifAlt(verifWrap(i, verifOperand(k))))
+	nested := verifWrap(i, verifOperand(k))
+	if mid := verifParam("MID", -1); mid >= 0 { // thorough tier: a third level OUTER(MID(INNER(operand)))
+		nested = verifWrap(mid, verifPat(verifAlt(nested)))
+	}
+	body := verifPat(verifAlt(nested))
 	tok, _ := ast.NewLexTokDef(verifTok("t"), verifPat(verifAlt(verifChr("x"), verifWrap(o, body), verifChr("y"))))
 	prods, _ := ast.NewLexProductions(tok)
 	lp, err := ast.NewLexPart(nil, nil, prods)
